@@ -2,12 +2,13 @@
 # tools/run_all.sh [seed] : every quick check on the unchanged tree, exit codes and summary lines (regression after engine changes)
 cd "$(dirname "$0")/.."
 seed=${1:-0}
+tier=${2:-quick}
 ids=$(python3 -c "import json;print(' '.join(c['property_id'] for c in json.load(open('MANIFEST.json'))['checks']))")
 mkdir -p /var/tmp/vf-runall
 for id in $ids; do
-  ( VERIF_SEED=$seed ./check $id --tier quick > /var/tmp/vf-runall/$id.log 2>&1; echo "$id exit=$? $(tail -1 /var/tmp/vf-runall/$id.log | cut -c1-160)" ) &
+  ( VERIF_SEED=$seed ./check $id --tier $tier > /var/tmp/vf-runall/$id.$tier.log 2>&1; echo "$id exit=$? $(tail -1 /var/tmp/vf-runall/$id.$tier.log | cut -c1-160)" ) &
   # at most 3 checks at a time (each uses up to 16 solver processes)
   while [ $(jobs -r | wc -l) -ge 3 ]; do sleep 1; done
 done
 wait
-grep -l "VIOLATION\|UNDECIDED\|ENGINE" /var/tmp/vf-runall/*.log 2>/dev/null | sed 's/^/ATTENTION: /'
+grep -l "VIOLATION\|UNDECIDED\|ENGINE" /var/tmp/vf-runall/*.$tier.log 2>/dev/null | sed 's/^/ATTENTION: /'
